@@ -10,7 +10,6 @@ fn nontrivial(t: &Trace) -> bool {
 pub fn prop() -> HistProp {
     let mut rc = RunCfg::new(&[Aspect::Fsck, Aspect::Panic, Aspect::Budget]);
     rc.flush_each = true;
-    rc.known.dst_inside_src = crate::run::known_active("C03", "rename-dir-into-own-subtree");
     rc.known.partial_create_nospace = crate::run::known_active("C03", "partial-create-out-of-space");
     let gc = GenCfg::mixed();
     HistProp {
